@@ -148,6 +148,8 @@ def run(ctx):
                 why.append("loop is not 0..N")
                 continue
             n = agg_field(it, 'end')
+            if n[0] == 'tryfrom':           # a checked conversion: the value when it succeeds
+                n = n[1]
             # N = Div(num, 8): compose with L(n) = 50 + 4n
             try:
                 if n[0] == 'bin' and n[1] == 'Div':
@@ -230,7 +232,8 @@ def run(ctx):
     if not fs:
         ctx.missing("C04.reader", "ShapeReader::read_nth_shape_as")
     else:
-        ps, _ = util.run_fn(F, fs[0], inline=lambda g, t: 'ShapeReader' in g["def"] or g["kind"] == "Closure")
+        ps, _ = util.run_fn(F, fs[0], inline=lambda g, t: g["kind"] == "Closure" or not (
+            g["def"].startswith(("record::", "header::", "<record::", "<header::")) or "read_one_shape" in g["def"]))
         good = bool(ps)
         why = []
         n_none = n_some = 0
